@@ -1503,6 +1503,11 @@ def run(ctx):
         run_case(ctx, gen_case(ctx, every[i] if i < len(every) else None))
     for _ in range(ctx.n(160)):
         run_case(ctx, gen_reject(ctx))
+    if any(f.key.startswith("C14/construct/") for f in ctx.failures):
+        # the code refused admissible solutions: the buckets those cases were generated for cannot be reached.  The refusal itself is
+        # the finding (a concrete failure with a replay), so the coverage gate must not turn it into an infrastructure exit.
+        for b in REQUIRED_BUCKETS:
+            ctx.tag(b)
 
 
 def search(ctx):
